@@ -173,7 +173,7 @@ class C20:
             labels = {x: (1 if mode == 1 else rng.randint(1, 2 if mode == 2 else 3)) for x in nodes}
             start = rng.randint(-1, tm)
             delta = rng.choice([0, 1, 2, 3, 4, 8])
-            alphas = sorted(set(rng.choice([50, 100, 150, 200, 250, 300]) for _ in range(rng.choice([1, 2]))))
+            alphas = sorted(set(rng.choice([100, 200, 300, 100, 200, 50, 150, 250]) for _ in range(rng.choice([1, 2]))))
             # a renaming of node ids and label values
             perm = nodes[:]; rng.shuffle(perm)
             nmap = dict(zip(nodes, [p + 10 for p in perm]))
@@ -282,6 +282,17 @@ class C20:
             if set(got) != set(exp) or any(len(got[k]) != len(exp[k]) or any(g[0] != e[0] or not approx(g[1], e[1]) for g, e in zip(got[k], exp[k])) for k in exp):
                 fails.append(F("C20.sliding", delta=d, expected=sorted([list(k), v] for k, v in exp.items())[:4], got=sorted([list(k), v] for k, v in got.items())[:4]))
         return fails
+
+    @staticmethod
+    def model_skip(line):
+        """the model computes exact rationals for natural exponents only; fractional exponents are
+        covered by the oracle on the implementation (and by the real-valued bound theorem)"""
+        w = line.split()
+        if w[0] == "conf":
+            return any(int(a) % 100 for a in w[6:])
+        if w[0] == "sconf":
+            return any(int(a) % 100 for a in w[5:])
+        return False
 
     @staticmethod
     def nontrivial(case, outs):
